@@ -150,6 +150,27 @@ def check_case(run, case, tier='quick'):
                               observed={'head': out[:120].decode('utf-8', 'replace'), 'tail': out[-80:].decode('utf-8', 'replace')},
                               expected={'head': exp[:60].decode('utf-8', 'replace')}); return
             run.case(h(['cli', case['spec']['base'], case['flags'], n]))
+        # ---- a standard output that cannot represent every guess (a consumer on an ASCII / Latin-1 pipe).  Today such a guess is silently left out; whatever
+        # the tool does with it, what it does write is guesses only, in the order of the stream, and every representable guess is there
+        if any(not g.isascii() for g in Ug) and rng.random() < 0.5:
+            oenc = rng.choice(['ascii', 'latin-1'])
+            def fits(g):
+                try:
+                    g.encode(oenc); return True
+                except UnicodeEncodeError:
+                    return False
+            out, err, rc, to = cli.run_cli('pcfg_guesser.py', ['-r', name, '-s', sn + 'enc'] + fl, stdin_mode='devnull', env={'PYTHONIOENCODING': oenc})
+            run.ev('cli_runs'); run.ev('narrow_stdout_runs')
+            if not to:
+                got = out.decode(oenc, 'replace').split('\n')[:-1] if out else []
+                want = [g for g in Ug if fits(g)]
+                if got != want:
+                    stream = Counter(Ug)
+                    foreign = [g for g in got if g not in stream][:4]
+                    k = next((i for i, (a_, b_) in enumerate(zip(got, want)) if a_ != b_), min(len(got), len(want)))
+                    run.violation(f'stdout encoding {oenc}: the lines written are not the representable guesses of the stream in stream order '
+                                  f'({len(got)} lines, {len(want)} representable guesses, first difference at line {k}; lines that are no guesses: {foreign})', case,
+                                  observed=got[max(0, k - 2):k + 3], expected=want[max(0, k - 2):k + 3]); return
         run.sample({'base': case['spec']['base'], 'flags': case['flags'], 'total_guesses': total, 'N_values': len(Ns), 'every_N': exhaustive,
                     'stream_head': Ug[:6]})
     finally:
